@@ -87,11 +87,19 @@ def known_class(case, obs):
             if any(os.path.normpath(os.path.join(r, dst)) in links for r in set(d for d, _, _ in obs["gens"])):
                 return "symlink-at-destination"
     if case["strategy"] in ("override", "manual") and case["mode"] != "path":
+        dsts = []
         for d, rel, g in obs["gens"]:
             if g[0] == "P":
                 dst = os.path.normpath(os.path.join(d, g[1]))
-                if dst in obs["before"] and obs["before"][dst][0] is None and dst != os.path.normpath(os.path.join(d, rel)):
+                src = os.path.normpath(os.path.join(d, rel))
+                if dst in obs["before"] and obs["before"][dst][0] is None and dst != src:
                     return "override-onto-directory"
+                if dst != src:
+                    dsts.append(dst)
+        # directory mode: every source is a directory, so a destination used twice is, at the second (overriding) rename,
+        # an existing directory as well — the one the first rename put there
+        if case["mode"] == "directory" and len(dsts) != len(set(dsts)):
+            return "override-onto-directory"
     return None
 
 
